@@ -26,12 +26,19 @@ import lib_recovery as L
 
 AREA = "Recovery"
 MODULES = ["Arc.Recovery.Props", "Arc.Recovery.Obligations"]
-THEOREMS = [("Arc.Recovery.Props", t) for t in (
-    "C05_replay_equals_live", "C05_fixed_rows_guard", "C05_crash_any_point", "C05_routing_key_refuted",
-    "C05_legacy_column_dropped_refuted", "C05_time_rescaled_refuted", "C05_int_measurement_lost_refuted",
-    "C05_crash_window_refuted", "C05_mixed_column_refuted", "C05_poisoned_file_refuted")] + [
+# primary: the repaired code (the unguarded obligations need the repair flags of the CURRENT source
+# to be true); then the statements about all variants; then the refutations of the old variants
+THEOREMS = [("Arc.Recovery.Obligations", t) for t in (
+    "C05_deployed_replay_rows", "C05_deployed_replay_raw", "C05_deployed_crash_any_point",
+    "C05_deployed_rejected_write_harmless")] + [("Arc.Recovery.Props", t) for t in (
+        "C05_repaired_rows_guard", "C05_repaired_raw_guard", "C05_crash_any_point_repaired",
+        "C05_replay_equals_live", "C05_fixed_rows_guard", "C05_crash_any_point")] + [
     ("Arc.Recovery.Obligations", t) for t in (
-        "C05_deployed_replay_guarded", "C05_deployed_crash_guarded", "C05_deployed_open_findings")]
+        "C05_deployed_replay_guarded", "C05_deployed_crash_guarded", "C05_deployed_open_findings")] + [
+    ("Arc.Recovery.Props", t) for t in (
+        "C05_routing_key_refuted", "C05_legacy_column_dropped_refuted", "C05_time_rescaled_refuted",
+        "C05_int_measurement_lost_refuted", "C05_crash_window_refuted", "C05_poisoned_file_refuted",
+        "C05_mixed_column_refuted")]
 TIE_NAME = ("C05 correspondence (cmd/arc recovery callbacks + wal.Writer/Recovery + ArrowBuffer + write handlers "
             "vs Arc.Recovery.Model.run_case) / Params_Recovery")
 PID = "C05"
@@ -75,6 +82,42 @@ def witness_cases():
     return [(sig, dict(id=900000 + i, events=[dict(e) for e in evs], profile="witness:" + sig)) for i, (sig, evs) in enumerate(out)]
 
 
+def _col(m, t, v, width=None, extra=(), second_m=None):
+    top = [(b"m", m), (b"columns", ("m", [(b"time", ("a", [("i", t), ("i", t + 1)])), (b"v", ("a", [("i", v), ("i", v + 1)])),
+                                            (b"host", ("a", [("s", b"srv-%02d" % (v % 100)), ("s", b"srv-%02d" % ((v + 1) % 100))]))]))]
+    top += list(extra)
+    if second_m is not None:
+        top.append((b"m", second_m))
+    return ("m", top, width) if width else ("m", top)
+
+
+def regression_cases():
+    """Shapes that earlier versions of this check did not exercise (kept as fixed cases): each must
+    simply satisfy the property on the current code."""
+    st, held = dict(op="start"), dict(op="start", hold=True)
+    extra15 = [(b"x%d" % i, ("i", i)) for i in range(15)]
+    out = [
+        # two raw columnar requests on one keep-alive connection while the WAL writer goroutine is held:
+        # the second request reuses the connection's body buffer before the first entry is written
+        ("held-writer-next-request", [held, _msg(_col(("s", b"cpu"), T0, 100)), _msg(_col(("s", b"mem"), T0 + 10, 200)),
+                                      _msg(_col(("s", b"disk"), T0 + 20, 300), db="otherdb"), dict(op="persist")] + L.RESTART),
+        ("held-writer-next-request-lp", [held, _msg(_col(("s", b"cpu"), T0, 100)),
+                                         _lp([_pt(b"zzzzzzzz", [(b"host", b"h" * 40)], [(b"v", ("i", 1))], T0 + 3)]), dict(op="persist")] + L.RESTART),
+        # wire encodings of the top-level map / strings / arrays on the raw path
+        ("raw-top-map16", [st, _msg(_col(("s", b"cpu"), T0, 1, width="16"))] + L.RESTART),
+        ("raw-top-map32", [st, _msg(_col(("s", b"cpu"), T0, 2, width="32"))] + L.RESTART),
+        ("raw-top-16-keys", [st, _msg(_col(("s", b"cpu"), T0, 3, extra=extra15))] + L.RESTART),
+        ("raw-wide-strings-arrays", [st, _msg(("m", [((b"m", "16"), ("s", b"cpu", "32")),
+                                                     ((b"columns", "8"), ("m", [((b"time", "32"), ("a", [("i", T0)], "32")),
+                                                                                (b"v", ("a", [("f", L.f64_bits(2.5))], "16")),
+                                                                                (b"note", ("a", [("s", b"n1", "16")]))], "16"))]))] + L.RESTART),
+        # duplicate top-level keys: every consumer must read the LAST binding
+        ("raw-duplicate-m", [st, _msg(_col(("s", b"cpu"), T0, 4, second_m=("s", b"disk")))] + L.RESTART),
+        ("raw-duplicate-unknown", [st, _msg(_col(("s", b"cpu"), T0, 5, extra=[(b"x0", ("i", 1)), (b"x0", ("s", b"two"))]))] + L.RESTART),
+    ]
+    return [dict(id=800000 + i, events=[dict(e) for e in evs], profile="regression:" + name) for i, (name, evs) in enumerate(out)]
+
+
 FLAG_OF = {"routing-key-column": "routing_last", "legacy-key-column": "strict_keys",
            "row-replay-time-outside-us-window": "rows_no_renorm", "columnar-integer-measurement": "int_m",
            "crash-before-replayed-rows-flushed": "flush_before_delete", "mixed-int-float-column": None,
@@ -96,10 +139,10 @@ def _values_kinds(vals):
 def _items_of(payload):
     """columnar / row items of a msgpack payload: [(item map entries, is_top_level_map)]"""
     if payload[0] == "a":
-        return [(dict(x[1]), False) for x in payload[1] if isinstance(x, tuple) and x[0] == "m"]
-    top = dict(payload[1])
+        return [(dict(L.map_entries(x)), False) for x in payload[1] if isinstance(x, tuple) and x[0] == "m"]
+    top = dict(L.map_entries(payload))
     if b"batch" in top and isinstance(top[b"batch"], tuple) and top[b"batch"][0] == "a":
-        return [(dict(x[1]), False) for x in top[b"batch"][1] if isinstance(x, tuple) and x[0] == "m"]
+        return [(dict(L.map_entries(x)), False) for x in top[b"batch"][1] if isinstance(x, tuple) and x[0] == "m"]
     return [(top, True)]
 
 
@@ -141,7 +184,7 @@ def signatures(case, obs):
             for item, top in _items_of(r["payload"]):
                 m = item.get(b"m")
                 if b"columns" in item and isinstance(item[b"columns"], tuple) and item[b"columns"][0] == "m":
-                    cols = dict(item[b"columns"][1])
+                    cols = dict(L.map_entries(item[b"columns"]))
                     if top and isinstance(m, tuple) and m[0] in ("i", "ic", "u", "uc"):
                         sig.add("columnar-integer-measurement")
                     if not top:
@@ -166,7 +209,7 @@ def signatures(case, obs):
                     names = []
                     for key in (b"fields", b"tags"):
                         if key in item and isinstance(item[key], tuple) and item[key][0] == "m":
-                            names += [k for k, _ in item[key][1]]
+                            names += [L.key_bytes(k) for k, _ in item[key][1]]
                     if any(n in (b"_database", b"_measurement") for n in names):
                         sig.add("routing-key-column")
                     if any(n in (b"database", b"measurement", b"m") for n in names):
@@ -181,7 +224,7 @@ def signatures(case, obs):
                         sig.add("row-replay-time-outside-us-window")
                     if b"fields" in item and isinstance(item[b"fields"], tuple) and item[b"fields"][0] == "m":
                         mm = m[1] if isinstance(m, tuple) else None
-                        for k, v in item[b"fields"][1]:
+                        for k, v in L.map_entries(item[b"fields"]):
                             rowfields.setdefault((mm, k), []).append(v)
             if any(len(_values_kinds(v)) > 1 for v in rowfields.values()):
                 sig.add("mixed-int-float-column")
@@ -194,7 +237,8 @@ PROFILES = [dict(name="clean", routing_p=0.0, wild_ts=False, mixed_p=0.0, int_m_
             dict(name="routing", routing_p=0.5, wild_ts=False, mixed_p=0.0, int_m_p=0.0, crash_in_recovery=False),
             dict(name="wild", routing_p=0.0, wild_ts=True, mixed_p=0.0, int_m_p=0.0, crash_in_recovery=False),
             dict(name="all", routing_p=0.3, wild_ts=True, mixed_p=0.2, int_m_p=0.3, crash_in_recovery=True),
-            dict(name="recovery-crash", routing_p=0.0, wild_ts=False, mixed_p=0.0, int_m_p=0.0, crash_in_recovery=True)]
+            dict(name="recovery-crash", routing_p=0.0, wild_ts=False, mixed_p=0.0, int_m_p=0.0, crash_in_recovery=True),
+            dict(name="wire", routing_p=0.1, wild_ts=False, mixed_p=0.0, int_m_p=0.1, crash_in_recovery=False, wire_p=0.7, dup_p=0.3)]
 
 
 def nontrivial(case):
@@ -311,7 +355,7 @@ def run(res, tier, seed):
 
     n = 480 if tier == "quick" else 6000
     wit = witness_cases()
-    cases = load_corpus() + [c for _, c in wit]
+    cases = load_corpus() + [c for _, c in wit] + regression_cases()
     nfixed = len(cases)
     for i in range(n):
         cases.append(L.gen_history(rng, i, PROFILES[i % len(PROFILES)]))
@@ -352,7 +396,7 @@ def run(res, tier, seed):
         "acks": {str(k): sum(1 for i in supported for a in obs[i]["acks"] if a == k) for k in (200, 204, 400, 403, 500)},
         "stored_rows": sum(len(obs[i]["stored"]) for i in supported),
     }
-    res.cov["samples"] = [L.case_summary(cases[i], obs[i]) for i in supported[nfixed:nfixed + 2]]
+    res.cov["samples"] = [L.case_summary(cases[i], obs[i]) for i in [k for k in supported if cases[k]["id"] < 800000][:2]]
 
     # ---- known findings: the witnesses ----------------------------------------------------
     widx = {c["id"]: k for k, c in enumerate(cases)}
@@ -373,7 +417,7 @@ def run(res, tier, seed):
     unexplained = []
     for k in orf:
         if cases[k]["id"] >= 900000:
-            continue
+            continue                      # the witnesses were handled above
         sigs = {s for s in signatures(cases[k], obs[k]) if s in known and (FLAG_OF[s] is None or not variant[FLAG_OF[s]])}
         if not (codes[k] & 2):
             continue                      # reported below as a correspondence failure (with its oracle verdict)
@@ -391,8 +435,12 @@ def run(res, tier, seed):
 
     # ---- correspondence -----------------------------------------------------------------------
     if dis:
-        k = min(dis, key=lambda i: (len(cases[i]["events"]), i))
-        small = shrink(cases[k], variant, lambda c: _still(c, variant, lambda code, c2, o2: (code & 1) and not (code & 2)))
+        # prefer a disagreement on which the property itself fails on the implementation's output
+        bad = [i for i in dis if not codes[i] & 4]
+        k = min(bad or dis, key=lambda i: (len(cases[i]["events"]), i))
+        want_oracle = bool(bad)
+        small = shrink(cases[k], variant, lambda c: _still(c, variant, lambda code, c2, o2: (code & 1) and not (code & 2) and
+                                                           (not want_oracle or not (code & 4))))
         o2, c2 = evaluate([small], variant, "shrunk")
         oracle_fails = not (c2[0] & 4)
         res.violation("model and implementation disagree on a history (%d cases)" % len(dis),
